@@ -7,13 +7,15 @@ HERE = os.path.dirname(os.path.dirname(os.path.abspath(__file__)))
 
 TABLE = {
     # id: (technique, level category, level text, level note, design ref)
-    "C01": ("reference-model monitor on NLP rows (numpy RK4/Euler/discrete map vs gap rows at random points)",
+    "C01": ("reference-model monitor on NLP rows (numpy RK4/Euler/discrete map vs gap rows at random points; rank monitor on "
+            "the read-back Jacobian: coordinates independently assignable; B-spline signals at stage times, three-way decision)",
             "exploration",
             "Gap-closing rows and SingleShooting read-backs of generated OCPs are compared with an independent numpy "
             "implementation of the scheme at random (mostly infeasible) decision vectors; held on the cases explored.",
             "Trusted: numpy reference scheme, expression evaluator pair (self-checked), public sample() read-back of "
             "primitive symbols on the control grid, CasADi Function evaluation.", "5/C01"),
-    "C02": ("reference-model monitor on NLP rows (independent collocation defects vs rows at random points)",
+    "C02": ("reference-model monitor on NLP rows (independent collocation defects vs rows at random points; rank monitor on "
+            "the read-back Jacobian of states / helper states / algebraic values)",
             "exploration",
             "Collocation/algebraic/continuity rows are compared with defects computed from independently derived "
             "collocation points and Lagrange weights at random decision vectors.",
@@ -51,7 +53,8 @@ TABLE = {
     "C12": ("differential monitor multi-stage NLP vs separately transcribed stages; clone vs direct declaration",
             "exploration", "Atoms and objective of composed problems equal union/sum of parts.",
             "Trusted: point transport via per-stage read-backs.", "5/C12"),
-    "C13": ("history monitor: random operation sequences vs fresh OCP built from a shadow specification",
+    "C13": ("history monitor: random operation sequences vs fresh OCP built from a shadow specification; declaration "
+            "snapshots before / after a first transcription triggered through a stage object (multi-stage)",
             "exploration", "Evolved vs fresh NLP/solver settings compared after random histories.",
             "Trusted: shadow model of each public operation.", "5/C13"),
     "C14": ("differential monitor scaled vs unscaled NLP in physical coordinates", "exploration",
@@ -66,9 +69,10 @@ TABLE = {
     "C17": ("spline monitors (helpers vs scipy BSpline; bspline signals and SplineMethod vs Cox-de Boor)",
             "exploration", "Helper matrices and sampled signals equal scipy evaluation.",
             "Trusted: scipy.interpolate.BSpline.", "5/C17"),
-    "C18": ("differential monitor save/load round trip", "exploration",
+    "C18": ("differential monitor save/load round trip (loaded and original-after-save vs a never saved twin)", "exploration",
             "Loaded OCP transcribes to the same NLP data.", "Trusted: NLP extraction.", "5/C18"),
-    "C19": ("differential monitor to_function vs imperative pipeline on real solves", "exploration",
+    "C19": ("differential monitor to_function vs imperative pipeline on real solves (fresh instance, or one persistent "
+            "instance fed through buffers refreshed in place)", "exploration",
             "Function outputs equal imperative results for random argument values.", "Trusted: ipopt determinism.",
             "5/C19"),
     "C20": ("fault-injection monitor with solver-entry sentinel", "fault_enumeration",
